@@ -219,7 +219,28 @@ def fresh_plain_run(algo, meta, rewards, np_seed):
 
 
 def c14_group(seed, idx, algo):
-    base = gen_algo_case(seed, idx, algo, force={"t0": 1, "query_rounds": [], "rmode": random.Random(f"c14r-{seed}-{idx}").choice(["dyadic", "negative", "few", "alt"])})
+    rmode = random.Random(f"c14r-{seed}-{idx}").choice(["dyadic", "negative", "few", "alt"])
+    # 1. learn the configuration with a one-round run, 2. let every one-argument variation of it run in this
+    #    process, 3. only then run the case itself (lock-step with the model) and compare with a fresh interpreter:
+    #    state shared between instances (class attributes, module-level caches, mutable defaults) that is keyed on
+    #    only part of the configuration is then already poisoned when the real run starts
+    pre = gen_algo_case(seed, idx, algo, force={"t0": 1, "query_rounds": [], "mid_queries": [], "rmode": rmode, "max_rounds": 1})
+    if pre.trace is None:
+        return [pre]
+    Tsel = pre.meta["T"]
+    drnd = random.Random(f"c14d-{seed}-{idx}-{algo}")
+    alt = ADAPTERS[algo].gen_params(drnd, Tsel)
+    dkeys = [k for k in pre.meta["params"] if k in alt and alt[k] != pre.meta["params"][k] and k not in ("base", "n", "rounds", "h_max", "k")]
+    decoys = 0
+    for kk in dkeys:
+        try:
+            plain_run(algo, dict(pre.meta, params=dict(pre.meta["params"], **{kk: alt[kk]})),
+                      [drnd.randint(0, 1024) / 1024.0 for _ in range(min(Tsel, 70))], 12345)
+            decoys += 1
+        except Exception:
+            pass
+    base = gen_algo_case(seed, idx, algo, force=base_force(pre.meta, t0=1, query_rounds=[], mid_queries=[], rmode=rmode, T=Tsel))
+    base.tags["c14-decoy-runs"] += decoys
     out = [base]
     if base.trace is None or base.trace["stopped"]:
         return out
@@ -228,19 +249,9 @@ def c14_group(seed, idx, algo):
     rnd = random.Random(f"c14-{seed}-{idx}-{algo}")
     s = rnd.randint(0, 2 ** 31 - 1)
     try:
-        # a decoy instance of the same class, one constructor argument changed, runs first in this process
-        alt = ADAPTERS[algo].gen_params(rnd, meta["T"]) if hasattr(ADAPTERS[algo], "gen_params") else {}
-        keys = [k for k in meta["params"] if k in alt and alt[k] != meta["params"][k] and k not in ("base", "n", "rounds", "h_max", "k")]
-        if keys and idx % 2 == 0:
-            kk = rnd.choice(keys)
-            try:
-                plain_run(algo, dict(meta, params=dict(meta["params"], **{kk: alt[kk]})), rewards[:40], s + 7)
-                base.tags["c14-decoy-runs"] += 1
-            except Exception:
-                pass
         r1 = plain_run(algo, meta, rewards, s)
         r2 = plain_run(algo, meta, rewards, s)
-        if idx % 2 == 0:
+        if True:
             ref = fresh_plain_run(algo, meta, rewards, s)
             if ref is not None:
                 base.tags["c14-fresh-process-references"] += 1
